@@ -1053,7 +1053,7 @@ impl Property for C36 {
         "Nts: enable-srv-resolution is off (the SRV path needs a real DNS server); the KE server is reached under the name `localhost` of the repo's test certificate; a source seen by the system stems from the TCP connection the KE server accepted last",
     ];
     const QUICK_CASES: u32 = 24_000;
-    const THOROUGH_CASES: u32 = 200_000;
+    const THOROUGH_CASES: u32 = 960_000;
 
     fn strategy(tier: Tier) -> BoxedStrategy<Case> {
         // debugging aid (sensitivity runs of one driver): VERIF_ONLY_MODE=nts
